@@ -488,3 +488,86 @@ def rule_rwrite(c: Ctx) -> RuleResult:
     r.functions = len(rphase)
     r.floor = 5
     return r
+
+
+def rule_serial(c: Ctx) -> RuleResult:
+    """C15 structural clauses of the serialisation / tree code."""
+    r = RuleResult("SERIAL", "Token.from_dict hands every serialised field to the constructor (a field taken out of the mapping is assigned "
+                             "back on every path); the tree builder pairs tokens by counting `nesting`, never by `level` (which is not an "
+                             "invariant of every configuration)")
+    fd = c.p.func("token.py:Token.from_dict")
+    dparam = fd.node.args.args[1].arg
+    cfg = c.cfg(fd)
+    # names that alias (a copy of) the mapping
+    maps = {dparam}
+    for n in own_nodes(fd.node):
+        if isinstance(n, ast.Assign) and len(n.targets) == 1 and isinstance(n.targets[0], ast.Name):
+            v = n.value
+            if (isinstance(v, ast.Call) and any(isinstance(x, ast.Name) and x.id in maps for a in list(v.args) + [k.value for k in v.keywords] for x in ast.walk(a))
+                    and U(v.func) in ("dict", "copy.copy", "copy")) or (isinstance(v, ast.Call) and isinstance(v.func, ast.Attribute) and v.func.attr == "copy"
+                                                                     and isinstance(v.func.value, ast.Name) and v.func.value.id in maps) \
+                    or (isinstance(v, ast.Dict) and any(k is None and isinstance(x, ast.Name) and x.id in maps for k, x in zip(v.keys, v.values))):
+                maps.add(n.targets[0].id)
+    ctor = [n for n in own_nodes(fd.node) if isinstance(n, ast.Call) and isinstance(n.func, ast.Name) and n.func.id in ("cls", "Token")
+            and any(k.arg is None and isinstance(k.value, ast.Name) and k.value.id in maps for k in n.keywords)]
+    if not ctor:
+        r.add("from_dict|ctor", c.where(fd, fd.node), fd.short, "cls(**dct)", "violation",
+              "from_dict no longer builds the token from the whole mapping (`cls(**dct)`): field-by-field reconstruction is not checked here")
+    else:
+        removed: dict[str, ast.AST] = {}
+        for n in own_nodes(fd.node):
+            if isinstance(n, ast.Call) and isinstance(n.func, ast.Attribute) and n.func.attr == "pop" and isinstance(n.func.value, ast.Name) \
+                    and n.func.value.id in maps and n.args and isinstance(n.args[0], ast.Constant):
+                removed[n.args[0].value] = n
+            if isinstance(n, ast.Delete):
+                for t in n.targets:
+                    if isinstance(t, ast.Subscript) and isinstance(t.value, ast.Name) and t.value.id in maps and isinstance(t.slice, ast.Constant):
+                        removed[t.slice.value] = n
+        r.add("from_dict|ctor", c.where(fd, ctor[0]), fd.short, U(ctor[0]), "discharged", "the token is built from the mapping itself")
+        tokname = None
+        par = fd.module.parents.get(ctor[0])
+        if isinstance(par, ast.Assign) and isinstance(par.targets[0], ast.Name):
+            tokname = par.targets[0].id
+        for fld, node in sorted(removed.items()):
+            # every path from the constructor call to a return stores token.<fld>
+            starts = [n for n in cfg.owner(ctor[0])]
+            ok = tokname is not None
+            if ok:
+                seen: set[int] = set()
+                stack = [m for st_ in starts for (m, l) in st_.succ if l != "exc"]
+                while stack:
+                    x = stack.pop()
+                    if x.id in seen:
+                        continue
+                    seen.add(x.id)
+                    if x.kind == "stmt" and isinstance(x.ast, ast.Assign) and any(U(t) == f"{tokname}.{fld}" for t in x.ast.targets):
+                        continue
+                    if x is cfg.exit:
+                        ok = False
+                        break
+                    stack.extend(m for (m, l) in x.succ if l != "exc")
+            r.add(f"from_dict|removed|{fld}", c.where(fd, node), fd.short, U(node)[:60], "discharged" if ok else "violation",
+                  f"`{fld}` is taken out of the mapping and assigned back on every path" if ok else
+                  f"`{fld}` is taken out of the mapping before the constructor call and is not assigned back on every path: for some values "
+                  f"(an empty list) the field silently becomes the default and the round trip is not the identity")
+    # tree builder
+    tree = c.p.module("tree.py")
+    for f in sorted(c.p.all_funcs(), key=lambda x: x.qual):
+        if f.module is not tree or f.is_property:
+            continue
+        sc = c.tf.scope(f)
+        for n in own_nodes(f.node):
+            if isinstance(n, ast.Attribute) and n.attr == "level" and isinstance(n.ctx, ast.Load):
+                t = sc.type(n.value)
+                if t == "Token" or t is None:
+                    r.add(f"tree|level-read|{f.short}", c.where(f, n), f.short, U(f.module.parents.get(n, n))[:70], "violation",
+                          "the syntax-tree code reads a token's `level`: levels are recomputed only by an optional rule (fragments_join), so "
+                          "pairing by level breaks tree construction for streams that are correctly nested by `nesting`")
+    bld = c.p.funcs.get("tree.py:SyntaxTreeNode._set_children_from_tokens")
+    if bld is None:
+        raise AnchorError("tree.py: SyntaxTreeNode._set_children_from_tokens not found")
+    uses = any(isinstance(n, ast.Attribute) and n.attr == "nesting" for n in own_nodes(bld.node))
+    r.add("tree|nesting", c.where(bld, bld.node), bld.short, "pairing of open / close tokens", "discharged" if uses else "violation",
+          "the builder pairs tokens by their `nesting`" if uses else "the tree builder does not look at `nesting`")
+    r.floor = 2
+    return r
